@@ -426,6 +426,7 @@ def finish_cmd(pid, st, at_prompt=None):
 
 
 MODE = 'fork'
+COLD_LOCALE = None      # env overrides for fresh-interpreter runs (locale)
 
 
 def run(world, cmd, args, **kw):
@@ -475,6 +476,8 @@ def run_cold(world, cmd, args, stdin=b'', plan=None, cwd=None, env=None,
               'PYTHONPATH': os.path.join(HERE, 'boot') + os.pathsep + REPO,
               'PYTHONDONTWRITEBYTECODE': '1', 'LC_ALL': 'C.UTF-8',
               'PYTHONIOENCODING': 'utf-8:strict', 'PYTHONHASHSEED': '0'})
+    if COLD_LOCALE:
+        e.update(COLD_LOCALE)        # the locale this case asks for
     t0 = time.monotonic()
     try:
         p = subprocess.run([PY, script] + list(args), input=stdin, env=e,
